@@ -91,7 +91,7 @@ PROP = dict(
     chunk=400,
     rule="scripted schedules on the REAL peer.Reconnector + peer.Manager.handleReconnect over an in-memory transport whose Dial blocks until "
          "released (fail / succeed with a real handshake): schedule, pause (also via DisconnectAll), resume, ResetAll, Cancel at any point incl. "
-         "while an attempt is in flight; real timers (30-120 ms). Compared with the Lean LTS: which waits see an attempt, its attempt counter and "
+         "while an attempt is in flight (every run includes an attempt that SUCCEEDS while paused, followed by resume and a new episode); real timers (30-120 ms). Compared with the Lean LTS: which waits see an attempt, its attempt counter and "
          "un-jittered delay. Timing-robust rule: strictly checked = an attempt while paused, and a gap BELOW (1-j)*d (a timer cannot be early); "
          "the upper bound only with 300 ms slack. non-trivial = waits",
     nontrivial=lambda op, out: op.startswith("wait"),
